@@ -399,8 +399,14 @@ func Main(id, level string, fn func(r *Run), opts ...Options) {
 	}
 	r := NewRun(id, level, tier, seed)
 	fn(r)
-	os.Exit(r.Finish())
+	code := r.Finish()
+	if child && code == 2 {
+		code = childInconclusive // a Go panic also exits with 2; keep the two apart
+	}
+	os.Exit(code)
 }
+
+const childInconclusive = 3
 
 func NewRun(id, level, tier string, seed int64) *Run {
 	return &Run{
@@ -485,7 +491,11 @@ func parent(id, level, tier string, seed int64, opt Options) int {
 			return 2
 		}
 	}
-	if code == 0 || code == 1 || code == 2 {
+	if code == childInconclusive {
+		code = 2
+		return postRace(id, level, tier, seed, code, filepath.Join(outDir, "race-"+tier), opt)
+	}
+	if code == 0 || code == 1 {
 		return postRace(id, level, tier, seed, code, filepath.Join(outDir, "race-"+tier), opt)
 	}
 	// The child died. Decide whether shisui (or a dependency running shisui's
